@@ -295,6 +295,38 @@ theorem updateDef_valid {ptr : Nat} {σ σ' : State} {t : Table} {d : Def} {evs 
         obtain ⟨rfl, _⟩ := hd
         exact hv.writeMem _ _ _
 
+/-- **C10-table-after-defs.** The table the fixpoint sends to the successors of a block (`update_def` folded
+over the defs) is valid in the state after the defs. -/
+theorem tableAfterDefs_valid {ptr : Nat} (defs : List (Term Def)) {σ σ' : State} {t : Table} {evs : List Event}
+    (hσ : StateWF σ) (hv : TableValid σ t) (hws : TableWS t)
+    (hwd : ∀ d ∈ defs, WellSizedDef ptr d.term) (hbo : DefsBoolOk defs σ)
+    (hr : execDefs σ defs = some (σ', evs)) : TableValid σ' (tableAfterDefs t defs) := by
+  unfold tableAfterDefs
+  induction defs generalizing σ t evs with
+  | nil =>
+    simp only [Sem.execDefs, Option.some.injEq, Prod.mk.injEq] at hr
+    obtain ⟨rfl, _⟩ := hr
+    exact hv
+  | cons d ds ih =>
+    simp only [Sem.execDefs] at hr
+    cases h1 : Sem.execDef σ d.term with
+    | none => rw [h1] at hr; cases hr
+    | some r1 =>
+      obtain ⟨σ₁, e₁⟩ := r1
+      rw [h1] at hr
+      simp only [Option.bind_eq_bind, Option.bind_some] at hr
+      cases h2 : Sem.execDefs σ₁ ds with
+      | none => rw [h2] at hr; cases hr
+      | some r2 =>
+        obtain ⟨σ₂, e₂⟩ := r2
+        rw [h2] at hr
+        simp only [Option.bind_some, Option.some.injEq, Prod.mk.injEq] at hr
+        obtain ⟨rfl, _⟩ := hr
+        have hwd0 := hwd d List.mem_cons_self
+        simp only [List.foldl]
+        exact ih (hσ.execDef h1) (updateDef_valid hσ hv hws hwd0 hbo.1 h1) (updateDef_tableWS hws hwd0)
+          (fun x hx => hwd x (List.mem_cons_of_mem _ hx)) (hbo.2 σ₁ e₁ h1) h2
+
 /-! ### the block-local insertion -/
 
 theorem execDefs_cons_some {σ : State} {d : Term Def} {ds : List (Term Def)} {r : State × List Event} :
